@@ -310,6 +310,10 @@ func (s *srcFacts) ignoredBy(file string, dists ...string) bool {
 
 var configureRemoved = map[string]bool{"abstractions/devices-usb-read": true, "abstractions/devices-usb": true, "abstractions/nameservice-strict": true, "tunables/multiarch.d/base": true, "wg": true}
 
+func cfgRec(c Cfg) map[string]any {
+	return map[string]any{"dist": c.Dist, "ver": c.Ver}
+}
+
 // fclass: what the source data says about an output entry for the switched option (a list of facts).
 func (s *srcFacts) fclass(tree, file, opt string, a, b Cfg) []string {
 	res := []string{}
@@ -323,12 +327,16 @@ func (s *srcFacts) fclass(tree, file, opt string, a, b Cfg) []string {
 			res = append(res, "overwrite")
 		}
 	case "ver":
-		if configureRemoved[file] || s.ubuntuCp[file] {
-			res = append(res, "configure")
+		// source facts only: whether the configure step acts on them for the two configurations is Ortho's business
+		if configureRemoved[file] {
+			res = append(res, "upstreamed")
+		}
+		if s.ubuntuCp[file] {
+			res = append(res, "ubuntudir")
 		}
 	case "dist":
 		if s.ubuntuCp[file] {
-			res = append(res, "configure")
+			res = append(res, "ubuntudir")
 		}
 		if s.manifest[a.Dist][base] || s.manifest[b.Dist][base] {
 			res = append(res, "manifest")
@@ -523,7 +531,7 @@ func checkC18(e *Env, r *Report) {
 						base := strings.TrimSuffix(n, ".apparmor.d")
 						if base != n && facts.overwrite[base] {
 							if _, ok := other[n]; !ok {
-								recs = append(recs, map[string]any{"ev": "diff", "opt": p.Opt, "key": fmt.Sprintf("abi|%s|rename", base), "file": n, "tree": tree,
+								recs = append(recs, map[string]any{"ev": "diff", "opt": p.Opt, "ca": cfgRec(p.A), "cb": cfgRec(p.B), "key": fmt.Sprintf("abi|%s|rename", base), "file": n, "tree": tree,
 									"kind": "fileonly", "a": newAItem("none"), "b": newAItem("none"), "guard": false, "fclass": []string{"overwrite"}})
 								nd++
 								out[base] = h
@@ -564,17 +572,17 @@ func checkC18(e *Env, r *Report) {
 					if !oka {
 						side = "b"
 					}
-					recs = append(recs, map[string]any{"ev": "diff", "opt": p.Opt, "key": fmt.Sprintf("%s|%s|%s|fileonly", p.Opt, fileKey(f, n), side), "file": n, "tree": tree,
+					recs = append(recs, map[string]any{"ev": "diff", "opt": p.Opt, "ca": cfgRec(p.A), "cb": cfgRec(p.B), "key": fmt.Sprintf("%s|%s|%s|fileonly", p.Opt, fileKey(f, n), side), "file": n, "tree": tree,
 						"kind": "fileonly", "a": none, "b": none, "guard": false, "fclass": fc})
 					nd++
 				case strings.HasPrefix(ha, "L:") || strings.HasPrefix(hb, "L:"):
-					recs = append(recs, map[string]any{"ev": "diff", "opt": p.Opt, "key": fmt.Sprintf("%s|%s|link", p.Opt, n), "file": n, "tree": tree,
+					recs = append(recs, map[string]any{"ev": "diff", "opt": p.Opt, "ca": cfgRec(p.A), "cb": cfgRec(p.B), "key": fmt.Sprintf("%s|%s|link", p.Opt, n), "file": n, "tree": tree,
 						"kind": "fileonly", "a": none, "b": none, "guard": false, "fclass": fc, "a_raw": ha, "b_raw": hb})
 					nd++
 				default:
 					g := facts.guardSet(n, p.Opt)
 					for _, op := range diffLines(items(ha), items(hb)) {
-						ev := map[string]any{"ev": "diff", "opt": p.Opt, "file": n, "tree": tree, "kind": op.Kind, "fclass": fc, "a": none, "b": none, "guard": false}
+						ev := map[string]any{"ev": "diff", "opt": p.Opt, "ca": cfgRec(p.A), "cb": cfgRec(p.B), "file": n, "tree": tree, "kind": op.Kind, "fclass": fc, "a": none, "b": none, "guard": false}
 						raw := ""
 						if op.A != nil {
 							ev["a"] = op.A.A
